@@ -431,3 +431,26 @@ func (ec *evalCtx) evalFuncLit(x *ast.FuncLit) Value {
 func (ec *evalCtx) callClosure(fv *FuncV, call *ast.CallExpr, args []Value) Value {
 	panic(unsupported("call of closure value"))
 }
+
+// renderCV returns the pointer to the per-render context value (templ.contextValue).
+// Assumption (stated in the evidence): all context.Context values that flow
+// through one render carry the same *contextValue (templ.InitializeContext at the
+// top of every generated component establishes it).
+func (e *Engine) renderCV(st *State) *PtrV {
+	if e.cvObj == 0 {
+		e.cvObj = e.allocObj(nil, nil)
+	}
+	if _, ok := st.heap[e.cvObj]; !ok {
+		pkg := e.pkgs[modulePath]
+		if pkg == nil {
+			panic(unsupported("cv(): package %s is not loaded", modulePath))
+		}
+		obj := pkg.Types.Scope().Lookup("contextValue")
+		if obj == nil {
+			panic(unsupported("cv(): type contextValue not found"))
+		}
+		st.heap[e.cvObj] = e.freshNamed(st, "cv", obj.Type(), 0)
+	}
+	e.trusted["one render = one shared templ.contextValue: every context that flows through a render carries the same *contextValue (getContext / InitializeContext are trusted with this contract)"] = true
+	return &PtrV{Nil: False, Obj: e.cvObj}
+}
